@@ -1,0 +1,95 @@
+//go:build verif
+
+// Contracts for the EdDSA signature codec and verifier of this curve (comment-only; installed by /verif/gcv
+// gen-contracts). Layer: *big.Int cells hold mathematical integers (methods of math/big by their documented
+// meaning: assumed), coordinates are elements of an abstract ring, and every method of the twisted Edwards points
+// is an opaque call whose arguments and results are captured at the call site (setter-style methods write their
+// receiver only). be/le are the big/little-endian
+// values of a byte window; q is the modulus of the field of definition (fr.Modulus(), pinned).
+
+package eddsa
+
+//@ func (hash.Hash).Reset
+//@ assumed interface hash.Hash: Reset touches only the hash object
+//@ end
+
+//@ func (hash.Hash).Write
+//@ assumed interface hash.Hash (io.Writer): Write reads p, does not retain it and touches only the hash object
+//@ end
+
+//@ func (hash.Hash).Sum
+//@ assumed interface hash.Hash: Sum(nil) returns a newly allocated slice holding the digest
+//@ end
+
+//@ func Signature.SetBytes
+//@ layer bigint big.Int ring fr.Element
+//@ option field fr
+//@ option nomerge
+//@ option opaque-calls
+//@ ghost order = 0
+//@ ghost decoded = false
+//@ ghost oncurve = false
+//@ cut after call GetEdwardsCurve #1
+//@ + ghost order = callresult.Order
+//@ cut after call SetBytes #3
+//@ + ghost decoded = isnil(callresult1) && same(callarg0, &sig.R) && len(callarg1) == sizeFr
+//@ cut after call IsOnCurve #1
+//@ + ghost oncurve = callresult && same(callarg0, &sig.R)
+//@ ghost-final rint = le(buf[0:sizeFr]) % 57896044618658097711785492504343953926634992332820282019728792003956564819968
+//@ ghost-final sint = be(buf[sizeFr:2*sizeFr])
+//@ ensures[length] isnil(result1) ==> len(buf) == 2*sizeFr && result0 == 2*sizeFr
+//@ ensures[r-range] isnil(result1) ==> 0 < rint && rint < q
+//@ ensures[s-range] isnil(result1) ==> 0 < sint && sint < order
+//@ ensures[r-point] isnil(result1) ==> decoded && oncurve
+//@ ensures[s-value] isnil(result1) ==> be(sig.S) == sint
+//@ modifies sig
+//@ end
+
+//@ func PublicKey.Verify
+//@ layer bigint big.Int ring fr.Element
+//@ option field fr
+//@ option nomerge
+//@ option opaque-calls
+//@ ghost keyok = false
+//@ ghost lhsok = false
+//@ ghost rhsok = false
+//@ ghost c1 = false
+//@ ghost c2 = false
+//@ ghost c3 = false
+//@ ghost c4 = false
+//@ ghost c5 = false
+//@ ghost cofv = 0
+//@ ghost hram = 0
+//@ ghost hramused = 0
+//@ cut after call IsOnCurve #1
+//@ + ghost keyok = callresult && same(callarg0, &pub.A)
+//@ cut after call SetBytes #2
+//@ + ghost hram = *callarg0
+//@ cut after call ScalarMultiplication #1
+//@ + ghost c1 = same(callarg0, &lhs) && same(callarg1, &curveParams.Base) && *callarg2 == be(sigBin[sizeFr:2*sizeFr])
+//@ cut after call ScalarMultiplication #2
+//@ + ghost c2 = same(callarg0, &lhs) && same(callarg1, &lhs)
+//@ + ghost cofv = *callarg2
+//@ cut after call IsOnCurve #2
+//@ + ghost lhsok = callresult && same(callarg0, &lhs)
+//@ cut after call ScalarMultiplication #3
+//@ + ghost c3 = same(callarg0, &rhs) && same(callarg1, &pub.A)
+//@ + ghost hramused = *callarg2
+//@ cut after call Add #1
+//@ + ghost c4 = same(callarg0, &rhs) && same(callarg1, &rhs) && same(callarg2, &sig.R)
+//@ cut after call ScalarMultiplication #4
+//@ + ghost c5 = same(callarg0, &rhs) && same(callarg1, &rhs) && *callarg2 == cofv
+//@ cut after call IsOnCurve #3
+//@ + ghost rhsok = callresult && same(callarg0, &rhs)
+//@ ghost-final rint = le(sigBin[0:sizeFr]) % 57896044618658097711785492504343953926634992332820282019728792003956564819968
+//@ ghost-final sint = be(sigBin[sizeFr:2*sizeFr])
+//@ ensures[hash-needed] isnil(hFunc) ==> !result0 && result1 == errHashNeeded
+//@ ensures[refused] !isnil(result1) ==> !result0
+//@ ensures[key] isnil(result1) ==> keyok
+//@ ensures[signature] isnil(result1) ==> len(sigBin) == 2*sizeFr && 0 < rint && rint < q && 0 < sint
+//@ ensures[cofactor] isnil(result1) ==> cofv == toint(curveParams.Cofactor)
+//@ ensures[lhs] isnil(result1) ==> c1 && c2 && lhsok
+//@ ensures[rhs] isnil(result1) ==> c3 && hramused == hram && c4 && c5 && rhsok
+//@ ensures[equation] isnil(result1) ==> result0 == (iszero(lhs.X - rhs.X) && iszero(lhs.Y - rhs.Y))
+//@ modifies nothing
+//@ end
